@@ -417,6 +417,71 @@ class Obj(Shape):
                 obj.fields[k] = s.fresh(ctx, f'{name}.{k}')
 
 
+class Ext(Shape):
+    """External object (socket ...) with ghost fields."""
+
+    def __init__(self, kind, fields):
+        self.kind = kind
+        self.fields = fields
+
+    def sample(self, rng):
+        from .ext import SExt
+        return SExt(self.kind, {k: s.sample(rng) for k, s in self.fields.items()})
+
+    def fresh(self, ctx, name):
+        from .ext import SExt
+        return SExt(self.kind, {k: s.fresh(ctx, f'{name}.{k}') for k, s in self.fields.items()})
+
+    def havoc(self, ctx, obj, name):
+        for k, s in self.fields.items():
+            cur = obj.fields.get(k)
+            if isinstance(cur, V.Mut) and not isinstance(s, (Opt, OneOf, Const)):
+                s.havoc(ctx, cur, f'{name}.{k}')
+            else:
+                obj.fields[k] = s.fresh(ctx, f'{name}.{k}')
+
+
+class Byte1(Shape):
+    def fresh(self, ctx, name):
+        from .ext import SByte1
+        c = ctx.fresh_int(name + '_code')
+        ctx.assume_type(z3.And(c >= 0, c <= 255))
+        return SByte1(mk_bool(ctx.fresh_bool(name + '_nonempty')), SInt(c))
+
+
+class Bytes(Shape):
+    def sample(self, rng):
+        return bytes(rng.randrange(256) for _ in range(rng.randint(0, 6)))
+
+    def fresh(self, ctx, name):
+        from .ext import SBytes
+        n = ctx.fresh_int(name + '_len')
+        ctx.assume_type(n >= 0)
+        return SBytes(n, z3.Array(ctx.fresh_name(name + '_arr'), z3.IntSort(), z3.IntSort()))
+
+
+class DecodedStr(Shape):
+    """A str known only through its UTF-8 bytes."""
+
+    def sample(self, rng):
+        return ''.join(rng.choice('abc \r\nxyz') for _ in range(rng.randint(0, 5)))
+
+    def fresh(self, ctx, name):
+        from .ext import SDecoded
+        return SDecoded(Bytes().fresh(ctx, name))
+
+
+class EmptyList(Shape):
+    def sample(self, rng):
+        return SList([])
+
+    def fresh(self, ctx, name):
+        return SList([])
+
+    def havoc(self, ctx, obj, name):
+        raise EngineError('a trace list cannot be havocked')
+
+
 class Ref(Shape):
     """Shape of a class registered with a class contract (resolved lazily)."""
 
